@@ -62,9 +62,9 @@ Proof.
   - apply (alookup_in Heap.ckey_eqb ckey_eqb_iff) in E. apply (in_map fst) in E. cbn in E.
     split; [intros [H|H]; [left; right; exact H | right; exact H] |
             intros [[H|H]|H]; [subst; right; exact E | left; exact H | right; exact H]].
-  - rewrite in_app_iff. cbn. split; [intros [H|[H|[H|[]]]]; auto | intros [[H|H]|H]; auto].
-    + left. left. symmetry. exact H.
-    + right. right. left. symmetry. exact H.
+  - rewrite in_app_iff. cbn. split.
+    + intros [H|[H|[H|[]]]]; auto.
+    + intros [[H|H]|H]; auto.
 Qed.
 
 (* the minimum: fold-based min_ckey against the sort-based min_key *)
@@ -74,13 +74,13 @@ Proof.
   revert m. induction d as [|[k v] r IH]; intros m H; cbn in H; [discriminate|].
   destruct (min_ckey r) as [m'|] eqn:E.
   - destruct (IH m' eq_refl) as [Hin Hmin]. destruct (cmp_ltb (Heap.ckey_cmp m' k)) eqn:L; injection H as <-.
-    + split; [right; exact Hin|]. intros k' [<-|Hk]; [|apply Hmin; exact Hk].
-      unfold leb. unfold cmp_ltb in L. change Heap.ckey_cmp with ckey_cmp in L. destruct (ckey_cmp m' k); try discriminate. reflexivity.
-    + split; [left; reflexivity|]. intros k' [<-|Hk]; [unfold leb; rewrite (good_refl _ good_ckey); reflexivity|].
+    + split; [right; exact Hin|]. cbn [map fst]. intros k' [<-|Hk]; [|apply Hmin; exact Hk].
+      unfold leb. change Heap.ckey_cmp with ckey_cmp in L. destruct (ckey_cmp m' k) eqn:Ec; cbn in L; try discriminate. reflexivity.
+    + split; [left; reflexivity|]. cbn [map fst]. intros k' [<-|Hk]; [unfold leb; rewrite (good_refl _ good_ckey); reflexivity|].
       apply (leb_trans ckey_cmp good_ckey k m' k'); [|apply Hmin; exact Hk].
       rewrite (leb_ltb ckey_cmp good_ckey). unfold ltb. change Heap.ckey_cmp with ckey_cmp in L. rewrite L. reflexivity.
   - injection H as <-. destruct r as [|[k2 v2] r2]; [|cbn in E; destruct (min_ckey r2); [destruct (cmp_ltb _)|]; discriminate].
-    split; [left; reflexivity|]. intros k' [<-|[]]. unfold leb. rewrite (good_refl _ good_ckey). reflexivity.
+    split; [left; reflexivity|]. cbn [map fst]. intros k' [<-|[]]. unfold leb. rewrite (good_refl _ good_ckey). reflexivity.
 Qed.
 
 Lemma min_ckey_none d : min_ckey d = None -> d = [].
@@ -96,8 +96,8 @@ Proof.
     apply (leb_antisym ckey_cmp good_ckey); [apply Cmin; exact Hin|].
     apply Hmin. apply dict_of_keys. left. exact Cin.
   - exfalso. unfold Canon.min_key in M.
-    pose proof (sort_perm (fun x => x) ckey_cmp rots) as P.
-    destruct (sort_by (fun x => x) ckey_cmp rots); [|discriminate].
+    match type of M with context [match ?t with _ => _ end] =>
+      assert (P : Permutation t rots) by apply Sort.sort_perm; destruct t; [|discriminate M] end.
     apply Permutation_nil in P. subst rots. destruct Hin.
 Qed.
 
@@ -119,4 +119,597 @@ Proof.
     apply Nat.eqb_neq in HN. rewrite HN. rewrite R. cbn [rbind].
     rewrite (min_agree _ _ M). rewrite dict_of_get in G. cbn in G. rewrite G. reflexivity.
   - intros y. rewrite dict_of_keys. cbn. tauto.
+Qed.
+
+(* ------------------------------------------------------------------ *)
+(* the invariant: every key recorded for a live object is bound to it, and a live
+   complex has ALL rotations of its (well-formed) representation among its keys *)
+
+Definition KeysReg (st : state) : Prop :=
+  forall i o k, live_obj (heap st) i o -> In k (o_keys o) ->
+                klookup k (cs_canon (cget st (o_cls o))) = Some i.
+
+Definition CplxOK (o : obj) : Prop :=
+  forall es ss t, o_data o = DCplx es ss t ->
+    goodNE (map fst es, ss) /\
+    (forall k, In (KCplx (Nat.iter k rotT (map fst es, ss))) (o_keys o)) /\
+    (forall key, In key (o_keys o) -> exists k, key = KCplx (Nat.iter k rotT (map fst es, ss))) /\
+    (exists cn, o_key o = KCplx cn /\ canon_T (map fst es, ss) = Some cn).
+
+Definition ROK (st : state) : Prop :=
+  KeysReg st /\ forall i o, live_obj (heap st) i o -> CplxOK o.
+
+Lemma rok_init ct n : ROK (init ct n).
+Proof. split; [intros i o k [H _] | intros i o [H _]]; cbn in H; discriminate. Qed.
+
+Lemma rok_collect st : ROK st -> ROK (collect st).
+Proof.
+  intros [K C]. split.
+  - intros i o k Hl Hk. pose proof (livesub_collect st i o Hl) as Hl0.
+    rewrite cget_collect. cbn [purge_class cs_canon]. apply (alookup_filter key_eqb key_eqb_iff).
+    + apply (K i o k Hl0 Hk).
+    + cbn. rewrite <- heap_collect. eapply live_obj_is_live; eauto.
+  - intros i o Hl. apply (C i o). apply livesub_collect. exact Hl.
+Qed.
+
+Lemma rok_same_regs st s : same_regs st s -> ROK st -> ROK s.
+Proof.
+  intros [Eh [_ [_ Ec]]] [K C]. split.
+  - intros i o k Hl Hk. rewrite Eh in Hl. rewrite (proj2 (Ec (o_cls o))). apply (K i o k Hl Hk).
+  - intros i o Hl. rewrite Eh in Hl. apply (C i o Hl).
+Qed.
+
+Lemma rok_set_root st s v : ROK st -> ROK (set_root st s v).
+Proof. intros H. exact H. Qed.
+
+Lemma reg_extra_lookup_keep extra id : forall canon k,
+  klookup k canon = Some id \/ In k extra -> klookup k (reg_extra extra id canon) = Some id.
+Proof.
+  induction extra as [|x r IH]; intros canon k H; [destruct H as [H|[]]; exact H|].
+  rewrite reg_extra_cons. apply IH.
+  destruct (key_eqb k x) eqn:E.
+  - apply key_eqb_iff in E. subst x. left. apply (alookup_aset_same key_eqb key_eqb_iff).
+  - assert (D : k <> x) by (intros ->; rewrite (proj2 (key_eqb_iff x x) eq_refl) in E; discriminate).
+    destruct H as [H|[H|H]]; [left | congruence | right; exact H].
+    unfold klookup, kset. rewrite (alookup_aset_other key_eqb key_eqb_iff) by exact D. exact H.
+Qed.
+
+Lemma reg_extra_lookup_in extra id canon k : In k extra -> klookup k (reg_extra extra id canon) = Some id.
+Proof. intros H. apply reg_extra_lookup_keep. right. exact H. Qed.
+
+(* the live objects after `create`: the old ones and, on success only, the new one *)
+Lemma create_live2 ct st c auto name k extra children d i o :
+  Inv ct st -> (forall x, In x children -> is_live (heap st) x = true) ->
+  live_obj (heap (fst (create ct st c auto name k extra children d))) i o ->
+  live_obj (heap st) i o \/
+  (o = mkObj c name k (k :: extra) true children d /\ i = length (heap st) /\
+   snd (create ct st c auto name k extra children d) = CRet i true).
+Proof.
+  intros I Hch. unfold create. destruct (nth_error ct c) as [ci|]; [|auto].
+  set (st1 := if auto then bump_id ct st c else st).
+  assert (S1 : same_regs st st1) by (unfold st1; destruct auto; [apply same_regs_bump | apply same_regs_refl]).
+  assert (Eh : heap st1 = heap st) by apply S1.
+  assert (I1 : Inv ct st1) by (eapply inv_same_regs; eauto).
+  destruct (c_fail ci); [| auto |]; unfold alloc; cbn [fst snd].
+  - unfold register, cput. cbn [heap]. intros H. apply live_obj_cons_inv in H.
+    destruct H as [[E1 E2]|[_ H]]; [right; split; [exact E2 | split; [rewrite <- Eh; exact E1 | rewrite E1; reflexivity]] | left; rewrite <- Eh; exact H].
+  - intros H. left. rewrite heap_collect in H. apply live_obj_sweep in H. destruct H as [H Kp].
+    unfold register_extra, cput in H, Kp. cbn [heap roots] in H, Kp. apply live_obj_cons_inv in H.
+    destruct H as [[E1 E2]|[_ H]]; [|rewrite <- Eh; exact H]. exfalso. subst i.
+    set (o' := mkObj c name k (k :: extra) true children d) in *.
+    assert (Hch1 : forall x, In x (o_children o') -> is_live (heap st1) x = true) by (rewrite Eh; exact Hch).
+    pose proof (heapok_alloc st1 o' (proj2 I1) eq_refl Hch1 (classes st1)) as HO.
+    apply kept_iff in Kp; [|apply (hk_older _ HO)]. destruct Kp as [_ Kp].
+    apply reach_newest in Kp; [|apply (hk_older _ HO)].
+    apply root_ids_in in Kp. destruct Kp as [s Hs]. apply (hk_roots _ (proj2 I1)) in Hs. apply is_live_lt in Hs. lia.
+Qed.
+
+Lemma cget_create_other ct st c auto name k extra children d b :
+  b <> c -> cs_canon (cget (fst (create ct st c auto name k extra children d)) b) =
+            purge (heap (fst (create ct st c auto name k extra children d))) (cs_canon (cget st b)) \/
+            cs_canon (cget (fst (create ct st c auto name k extra children d)) b) = cs_canon (cget st b).
+Proof.
+  intros Hb. unfold create. destruct (nth_error ct c) as [ci|]; [|auto].
+  set (st1 := if auto then bump_id ct st c else st).
+  assert (E1 : cs_canon (cget st1 b) = cs_canon (cget st b)).
+  { unfold st1. destruct auto; [|reflexivity]. unfold bump_id. destruct (class_id ct st c); [|reflexivity].
+    unfold set_id. rewrite cget_cput_other by congruence. reflexivity. }
+  destruct (c_fail ci); [|auto|]; unfold alloc; cbn [fst].
+  - right. unfold register. rewrite cget_cput_other by congruence. exact E1.
+  - left. rewrite cget_collect, heap_collect. cbn [purge_class cs_canon]. unfold register_extra.
+    rewrite cget_cput_other by congruence. cbn [cget classes] in *. unfold cget in *. cbn [classes]. rewrite <- E1. reflexivity.
+Qed.
+
+Lemma cget_create_same ct st c auto name k extra children d :
+  c < length (classes st) ->
+  let s := fst (create ct st c auto name k extra children d) in
+  let canon := cs_canon (cget st c) in
+  let id := length (heap st) in
+  cs_canon (cget s c) = canon \/
+  cs_canon (cget s c) = kset k id (reg_extra extra id canon) \/
+  cs_canon (cget s c) = purge (heap s) (reg_extra extra id canon).
+Proof.
+  intros Hc. cbn zeta. unfold create. destruct (nth_error ct c) as [ci|]; [|auto].
+  set (st1 := if auto then bump_id ct st c else st).
+  assert (S1 : same_regs st st1) by (unfold st1; destruct auto; [apply same_regs_bump | apply same_regs_refl]).
+  destruct S1 as [Eh [_ [El Ec]]]. assert (Hc1 : c < length (classes st1)) by (rewrite El; exact Hc).
+  destruct (c_fail ci); [|auto|]; unfold alloc; cbn [fst].
+  - right. left. unfold register.
+    rewrite (cget_cput_same (mkState _ (classes st1) (roots st1))) by exact Hc1. cbn [cs_canon].
+    change (cget (mkState _ (classes st1) (roots st1)) c) with (cget st1 c).
+    rewrite (proj2 (Ec c)), Eh. reflexivity.
+  - right. right. rewrite cget_collect, heap_collect. cbn [purge_class cs_canon]. unfold register_extra.
+    rewrite (cget_cput_same (mkState _ (classes st1) (roots st1))) by exact Hc1. cbn [cs_canon].
+    change (cget (mkState _ (classes st1) (roots st1)) c) with (cget st1 c).
+    rewrite (proj2 (Ec c)), Eh. reflexivity.
+Qed.
+
+Theorem rok_create ct st c auto name k extra children d :
+  Inv ct st -> ROK st -> Fresh st c name k extra ->
+  (forall x, In x children -> is_live (heap st) x = true) ->
+  CplxOK (mkObj c name k (k :: extra) true children d) ->
+  ROK (fst (create ct st c auto name k extra children d)).
+Proof.
+  intros I [K C] [F1 [F2 F3]] Hch HO.
+  split; [|intros i o Hl; destruct (create_live2 _ _ _ _ _ _ _ _ _ _ _ I Hch Hl) as [H|[-> _]]; [apply (C i o H) | exact HO]].
+  intros i o k0 Hl Hk.
+  assert (Li : is_live (heap (fst (create ct st c auto name k extra children d))) i = true)
+    by (eapply live_obj_is_live; eauto).
+  destruct (Nat.lt_ge_cases c (length (classes st))) as [Hc|Hc].
+  2:{ (* no such class: create does nothing *)
+      assert (E : create ct st c auto name k extra children d = (st, CErr eBadRequest None)).
+      { unfold create. destruct (nth_error ct c) eqn:Ec; [|reflexivity]. exfalso.
+        assert (c < length ct) by (apply nth_error_Some; congruence). rewrite (ok_len _ _ (proj1 I)) in Hc. lia. }
+      rewrite E in *. cbn [fst] in *. apply (K i o k0 Hl Hk). }
+  destruct (create_live2 _ _ _ _ _ _ _ _ _ _ _ I Hch Hl) as [H0|[-> [-> Es]]].
+  - pose proof (K i o k0 H0 Hk) as R.
+    destruct (Nat.eq_dec (o_cls o) c) as [E|D].
+    + rewrite E in *.
+      assert (D1 : k0 <> k) by (intros ->; congruence).
+      assert (D2 : ~ In k0 extra) by (intros Hin; apply F3 in Hin; congruence).
+      destruct (cget_create_same ct st c auto name k extra children d Hc) as [S|[S|S]]; rewrite S.
+      * exact R.
+      * unfold klookup, kset. rewrite (alookup_aset_other key_eqb key_eqb_iff) by exact D1.
+        change (alookup key_eqb) with klookup. rewrite reg_extra_lookup_other by exact D2. exact R.
+      * apply (alookup_filter key_eqb key_eqb_iff); [|exact Li].
+        change (alookup key_eqb) with klookup. rewrite reg_extra_lookup_other by exact D2. exact R.
+    + destruct (cget_create_other ct st c auto name k extra children d (o_cls o) D) as [S|S]; rewrite S; [|exact R].
+      apply (alookup_filter key_eqb key_eqb_iff); [exact R | exact Li].
+  - (* the new object: created, hence the FNone shape *)
+    cbn [o_cls o_keys] in *.
+    assert (S : cs_canon (cget (fst (create ct st c auto name k extra children d)) c)
+                = kset k (length (heap st)) (reg_extra extra (length (heap st)) (cs_canon (cget st c)))).
+    { revert Es. unfold create. destruct (nth_error ct c) as [ci|]; [|discriminate].
+      set (st1 := if auto then bump_id ct st c else st).
+      assert (S1 : same_regs st st1) by (unfold st1; destruct auto; [apply same_regs_bump | apply same_regs_refl]).
+      destruct S1 as [Eh [_ [El Ec]]]. assert (Hc1 : c < length (classes st1)) by (rewrite El; exact Hc).
+      destruct (c_fail ci); unfold alloc; cbn [fst snd]; try discriminate. intros _.
+      unfold register. rewrite (cget_cput_same (mkState _ (classes st1) (roots st1))) by exact Hc1. cbn [cs_canon].
+      change (cget (mkState _ (classes st1) (roots st1)) c) with (cget st1 c).
+      rewrite (proj2 (Ec c)), Eh. reflexivity. }
+    rewrite S. destruct (key_eqb k0 k) eqn:E.
+    + apply key_eqb_iff in E. subst k0. apply (alookup_aset_same key_eqb key_eqb_iff).
+    + assert (D : k0 <> k) by (intros ->; rewrite (proj2 (key_eqb_iff k k) eq_refl) in E; discriminate).
+      unfold klookup, kset. rewrite (alookup_aset_other key_eqb key_eqb_iff) by exact D.
+      destruct Hk as [Hk|Hk]; [congruence|]. apply reg_extra_lookup_in. exact Hk.
+Qed.
+
+(* ---- through the constructor calls ---- *)
+Lemma cplxok_other c name k keys ch d : (forall es ss t, d <> DCplx es ss t) -> CplxOK (mkObj c name k keys true ch d).
+Proof. intros H es ss t E. cbn in E. exfalso. eapply H; eauto. Qed.
+
+Lemma rok_lookup_create ct st c nm k auto extra children d :
+  Inv ct st -> ROK st ->
+  (forall k', In k' extra -> klookup k' (cs_canon (cget st c)) = None) ->
+  (forall x, In x children -> is_live (heap st) x = true) ->
+  CplxOK (mkObj c nm k (k :: extra) true children d) ->
+  ROK (fst (match sing_lookup (cget st c) nm (Some k) with
+            | LFound o => (st, CRet o false)
+            | LRaise e => (st, CErr eSingleton e)
+            | LFresh => create ct st c auto nm k extra children d
+            end)).
+Proof.
+  intros I R Fx Hch HO. destruct (sing_lookup (cget st c) nm (Some k)) eqn:E; try exact R.
+  apply sing_fresh in E. destruct E as [E1 E2]. apply rok_create; auto. split; [exact E1 | split; [exact E2 | exact Fx]].
+Qed.
+
+Definition RecRok (ct : ctable) (rec : state -> pstr -> option Z -> state * cout) : Prop :=
+  forall st n l, Inv ct st -> ROK st -> ROK (fst (rec st n l)).
+
+Lemma rok_dom_nested ct rec st nm len1 :
+  RecOK ct rec -> RecRok ct rec -> Inv ct st -> ROK st -> ROK (fst (dom_nested rec st nm len1)).
+Proof.
+  intros HR HK I R. unfold dom_nested.
+  assert (Call : forall s n l, Inv ct s -> ROK s -> Inv ct (fst (rec s n l)) /\ ROK (fst (rec s n l)))
+    by (intros s n l Is Rs; split; [apply (HR s n l Is) | apply (HK s n l Is Rs)]).
+  destruct len1 as [l|], (starred nm); try exact R.
+  - destruct (Z.eqb l 0); [exact R|].
+    destruct (Call st (cname_of nm) None I R) as [I1 R1]. destruct (rec st (cname_of nm) None) as [s1 r]. cbn [fst] in *.
+    destruct r as [o b|k e].
+    + destruct (obj_len (heap s1) o); [destruct (Z.eqb a l)|]; cbn [fst]; apply rok_collect; exact R1.
+    + destruct (is_singleton_err k); cbn [fst]; [apply rok_collect|]; exact R1.
+  - destruct (Z.eqb l 0); [exact R|].
+    destruct (Call st (cname_of nm) None I R) as [I1 R1]. destruct (rec st (cname_of nm) None) as [s1 r]. cbn [fst] in *.
+    destruct r as [o b|k e].
+    + destruct (obj_len (heap s1) o); cbn [fst]; [|apply rok_collect; exact R1].
+      destruct (Call (collect s1) (cname_of nm) (Some l) (inv_collect _ _ I1) (rok_collect _ R1)) as [I2 R2].
+      destruct (rec (collect s1) (cname_of nm) (Some l)) as [s2 r2]. cbn [fst] in *.
+      destruct r2 as [o2 b2|k2 e2]; cbn [fst]; [apply rok_collect; exact R2|].
+      destruct (is_singleton_err k2); cbn [fst]; [apply rok_collect|]; exact R2.
+    + destruct (is_singleton_err k); cbn [fst]; [apply rok_collect|]; exact R1.
+  - destruct (Call st (cname_of nm) None I R) as [I1 R1]. destruct (rec st (cname_of nm) None) as [s1 r]. cbn [fst] in *.
+    destruct r as [o b|k e].
+    + destruct (obj_len (heap s1) o); cbn [fst]; apply rok_collect; exact R1.
+    + destruct (is_singleton_err k); cbn [fst]; [apply rok_collect|]; exact R1.
+Qed.
+
+Lemma rok_dom_body ct rec c st name len prefix dtype :
+  RecOK ct rec -> RecRok ct rec -> Inv ct st -> ROK st -> ROK (fst (dom_body rec ct c st name len prefix dtype)).
+Proof.
+  intros HR HK I R. unfold dom_body.
+  destruct (nth_error ct c) as [ci|] eqn:Ec; [|exact R].
+  destruct (resolve_name ct st c ci name prefix) as [nm|k]; [|exact R].
+  destruct (dom_len1 ci len dtype) as [len1|k]; [|exact R]. destruct (negb (nonempty nm)); [exact R|].
+  pose proof (inv_dom_nested ct rec st nm len1 HR I) as I1.
+  pose proof (rok_dom_nested ct rec st nm len1 HR HK I R) as R1.
+  destruct (dom_nested rec st nm len1) as [st1 rl]. cbn [fst] in *. destruct rl as [len2|k]; [|exact R1].
+  unfold dom_finish. destruct len2 as [l|]; cbn [option_map].
+  - apply rok_lookup_create; [exact I1 | exact R1 | intros ? [] | intros ? [] | apply cplxok_other; intros ? ? ?; discriminate].
+  - destruct (sing_lookup (cget st1 c) nm None); exact R1.
+Qed.
+
+Theorem rok_dom_call fuel ct c st name len prefix dtype :
+  Inv ct st -> ROK st -> ROK (fst (dom_call fuel ct c st name len prefix dtype)).
+Proof.
+  revert st name len prefix dtype. induction fuel as [|f IH]; intros st name len prefix dtype I R; [exact R|].
+  cbn [dom_call]. apply rok_dom_body; auto.
+  - intros st' n l I'. apply callok_dom_call. exact I'.
+  - intros st' n l I' R'. apply IH; assumption.
+Qed.
+
+(* the keys of a well-formed request that runs through the whole loop *)
+Lemma full_loop_keys reg names ss cdict k :
+  goodNE (names, ss) ->
+  rot_loop (n_strands names) 0 reg names ss [] = Ok (None, cdict) ->
+  In (Nat.iter k rotT (names, ss)) (map fst cdict).
+Proof.
+  intros GN H. pose proof GN as [G _].
+  destruct (rot_loop_full _ 0 reg (names, ss) [] cdict H) as [rots [R [D _]]]. subst cdict.
+  apply dict_of_keys. left.
+  pose proof (n_strands_nstr (names, ss) GN) as NS. cbn [fst snd] in NS. rewrite NS in R.
+  rewrite (rot_record_spec _ _ G) in R.
+  assert (Er : rots = map (fun j => Nat.iter j rotT (names, ss)) (seq 0 (nstr ss))) by congruence. subst rots. clear R.
+  rewrite (iter_rotT_mod k _ G). change (snd (names, ss)) with ss.
+  apply (in_map_iff (fun j => Nat.iter j rotT (names, ss))). exists (k mod nstr ss). split; [reflexivity|].
+  apply in_seq. assert (Hn : nstr ss <> 0) by (unfold nstr; lia).
+  pose proof (Nat.mod_upper_bound k (nstr ss) Hn). lia.
+Qed.
+
+Theorem rok_cplx_call ct c st seq sst name prefix :
+  Inv ct st -> ROK st ->
+  (forall es x, seq = Some es -> In x (elem_ids es) -> is_live (heap st) x = true) ->
+  (forall es ss, seq = Some es -> sst = Some ss -> goodNE (map fst es, ss)) ->
+  ROK (fst (cplx_call ct c st seq sst name prefix)).
+Proof.
+  intros I R Hch HG. unfold cplx_call.
+  destruct (nth_error ct c) as [ci|] eqn:Ec; [|exact R].
+  destruct seq as [es|].
+  - destruct (resolve_name ct st c ci name prefix) as [nm|k]; [|exact R].
+    destruct sst as [ss|]; [|exact R].
+    destruct (negb (Nat.eqb (length es) (length ss))); [exact R|].
+    destruct (Nat.eqb (length (make_strand_table_list sPlus (map fst es))) 0); [exact R|].
+    destruct (rot_loop _ 0 (cs_canon (cget st c)) (map fst es) ss []) as [[ex cdict]|k] eqn:ER; [|exact R].
+    pose proof ER as ER'. apply rot_loop_fresh in ER; [|intros k []]. destruct ER as [F1 F2].
+    match goal with |- ROK (fst (match ?x with _ => _ end)) => destruct x as [[cn e]|k] eqn:EC end; [|exact R].
+    destruct ex as [[k0 e0]|].
+    + (* early exit: the key is registered, nothing can be created *)
+      injection EC as <- <-. destruct (sing_lookup (cget st c) nm (Some (KCplx k0))) eqn:EL; try exact R.
+      exfalso. apply sing_fresh in EL. apply (F2 k0 e0 eq_refl). apply EL.
+    + apply rok_lookup_create; auto.
+      * intros k' Hk. apply in_map_iff in Hk. destruct Hk as [[kk vv] [<- Hin]]. apply F1.
+        apply in_map_iff. exists (kk, vv). split; [reflexivity | exact Hin].
+      * intros x Hx. eapply Hch; eauto.
+      * intros es' ss' t' E. cbn in E. injection E as <- <- _.
+        pose proof (HG es ss eq_refl eq_refl) as GN. pose proof GN as [Gd _].
+        assert (EM : min_ckey cdict = Some cn /\ cdict_get cn cdict = Some e).
+        { destruct (min_ckey cdict) as [m|]; [|discriminate]. destruct (cdict_get m cdict) as [e'|] eqn:EG; [|discriminate].
+          injection EC as <- <-. auto. }
+        destruct EM as [EM EG].
+        assert (HL : length (map fst es) = length ss) by (apply aligned_length, Gd).
+        assert (EN : n_strands (map fst es) <> 0).
+        { pose proof (n_strands_nstr _ GN) as NS. cbn [fst snd] in NS. rewrite NS. unfold nstr. lia. }
+        destruct (loop_is_identifiers_fresh _ _ _ _ _ _ HL EN ER' EM EG) as [rots [IF Keys]].
+        destruct (rot_loop_full _ 0 _ (map fst es, ss) [] cdict ER') as [rots' [RR _]].
+        pose proof (n_strands_nstr _ GN) as NS. cbn [fst snd] in NS. unfold n_strands in NS.
+        rewrite NS, (rot_record_spec _ _ Gd) in RR.
+        assert (InRots : forall y, In y (map fst cdict) -> exists k, y = Nat.iter k rotT (map fst es, ss)).
+        { intros y Hy. destruct (rot_loop_full _ 0 _ (map fst es, ss) [] cdict ER') as [r2 [R2 [D2 _]]].
+          rewrite NS, (rot_record_spec _ _ Gd) in R2. subst cdict. apply dict_of_keys in Hy. destruct Hy as [Hy|[]].
+          assert (Er : r2 = map (fun j => Nat.iter j rotT (map fst es, ss)) (seq 0 (nstr ss))) by congruence. subst r2.
+          apply in_map_iff in Hy. destruct Hy as [j [<- _]]. eauto. }
+        split; [exact GN|]. split; [|split].
+        -- intros k. right. apply in_map_iff.
+           pose proof (full_loop_keys _ _ _ _ k GN ER') as Hin.
+           apply in_map_iff in Hin. destruct Hin as [[kk vv] [E1 Hin]]. exists (kk, vv). cbn in E1. rewrite <- E1. auto.
+        -- intros key [<-|Hk].
+           ++ destruct (min_ckey_spec _ _ EM) as [Hin _]. destruct (InRots cn Hin) as [k ->]. eauto.
+           ++ apply in_map_iff in Hk. destruct Hk as [[kk vv] [<- Hin]]. cbn [fst].
+              destruct (InRots kk) as [k ->]; [apply in_map_iff; exists (kk, vv); auto | eauto].
+        -- exists cn. split; [reflexivity|]. unfold canon_T. cbn [fst snd]. rewrite IF. reflexivity.
+  - destruct name as [nm|]; [|exact R]. destruct (sing_lookup (cget st c) nm None); exact R.
+Qed.
+
+Theorem rok_strand_call ct c st seq name prefix :
+  Inv ct st -> ROK st ->
+  (forall es x, seq = Some es -> In x (elem_ids es) -> is_live (heap st) x = true) ->
+  ROK (fst (strand_call ct c st seq name prefix)).
+Proof.
+  intros I R Hch. unfold strand_call. destruct (nth_error ct c) as [ci|]; [|exact R]. destruct seq as [es|].
+  - destruct (existsb is_plus es); [exact R|]. destruct (resolve_name ct st c ci name prefix) as [nm|k]; [|exact R].
+    apply rok_lookup_create; auto; [intros ? [] | intros x Hx; eapply Hch; eauto | apply cplxok_other; intros ? ? ?; discriminate].
+  - destruct name as [nm|]; [|exact R]. destruct (sing_lookup (cget st c) nm None); exact R.
+Qed.
+
+Theorem rok_macro_call ct c st members name :
+  Inv ct st -> ROK st ->
+  (forall ms x, members = Some ms -> In x ms -> is_live (heap st) x = true) ->
+  ROK (fst (macro_call ct c st members name)).
+Proof.
+  intros I R Hch. unfold macro_call. destruct members as [ms|].
+  - destruct (omap' _ ms) as [mks|]; [|exact R].
+    match goal with |- ROK (fst (match ?x with _ => _ end)) => destruct x as [nm|k] end; [|exact R].
+    destruct (find (fun i => str_eqb (obj_name (heap st) i) nm) ms) as [rep|].
+    + apply rok_lookup_create; auto; [intros ? [] | intros x Hx; eapply Hch; eauto | apply cplxok_other; intros ? ? ?; discriminate].
+    + destruct (sing_lookup (cget st c) nm _); exact R.
+  - destruct name as [nm|]; [|exact R]. destruct (sing_lookup (cget st c) nm None); exact R.
+Qed.
+
+Theorem rok_reaction_call ct c st rp rtype name :
+  Inv ct st -> ROK st ->
+  (forall rs ps x, rp = Some (rs, ps) -> In x (rs ++ ps) -> is_live (heap st) x = true) ->
+  ROK (fst (reaction_call ct c st rp rtype name)).
+Proof.
+  intros I R Hch. unfold reaction_call. destruct rp as [[rs ps]|].
+  - destruct (omap' _ rs) as [fr|]; [|exact R]. destruct (omap' _ ps) as [fp|]; [|exact R].
+    match goal with |- ROK (fst (if ?b then _ else _)) => destruct b end; [exact R|].
+    apply rok_lookup_create; auto; [intros ? [] | intros x Hx; eapply Hch; eauto | apply cplxok_other; intros ? ? ?; discriminate].
+  - destruct name as [nm|]; [|exact R]. destruct rtype; [exact R|]. destruct (sing_lookup (cget st c) nm None); exact R.
+Qed.
+
+(* ---- the turns setter rotates within the orbit ---- *)
+Lemma map_fst_rot_elems es : map fst (rot_elems es) = rotS (map fst es).
+Proof.
+  unfold rot_elems, rotS. destruct (index_of sPlus (map fst es)) as [p|]; [|reflexivity].
+  rewrite !map_app, <- skipn_map, <- firstn_map. reflexivity.
+Qed.
+
+Lemma rot_n_spec t : forall es ss es' ss', good (map fst es, ss) ->
+  rot_n t es ss = Ok (es', ss') -> (map fst es', ss') = Nat.iter t rotT (map fst es, ss).
+Proof.
+  induction t as [|t IH]; intros es ss es' ss' G H; cbn [rot_n] in H.
+  - injection H as <- <-. reflexivity.
+  - destruct (rotT_ok _ G) as [E Gy]. unfold once in E. cbn [fst snd] in E. rewrite E in H. cbn [rbind] in H.
+    assert (Ef : fst (rotT (map fst es, ss)) = map fst (rot_elems es)).
+    { rewrite map_fst_rot_elems. apply (rotT_fst _ G). }
+    assert (Ey : rotT (map fst es, ss) = (map fst (rot_elems es), snd (rotT (map fst es, ss))))
+      by (rewrite <- Ef; destruct (rotT (map fst es, ss)); reflexivity).
+    rewrite Ey in Gy. rewrite (IH _ _ _ _ Gy H). rewrite iter_succ_r, <- Ey. reflexivity.
+Qed.
+
+Lemma rok_set_turns st i v : ROK st -> ROK (fst (set_turns st i v)).
+Proof.
+  intros [K C]. unfold set_turns. destruct (hget (heap st) i) as [o|] eqn:E; [|split; assumption].
+  destruct (o_data o) as [| es ss t | | |] eqn:Ed; try (split; assumption).
+  - match goal with |- context [if ?b then _ else _] => destruct b end; [split; assumption|].
+    destruct (rot_n _ es ss) as [[es' ss']|] eqn:ER; [|split; assumption]. cbn [fst].
+    set (o' := with_data o _).
+    assert (G : forall j x, live_obj (hset (heap st) i o') j x ->
+                live_obj (heap st) j x \/ (j = i /\ x = o' /\ live_obj (heap st) i o)).
+    { intros j x [H1 H2]. rewrite hget_hset in H1. destruct (Nat.eqb j i) eqn:Ej.
+      - apply Nat.eqb_eq in Ej. subst j. rewrite E in H1. cbn in H1. injection H1 as <-. right.
+        split; [reflexivity | split; [reflexivity | split; [exact E | exact H2]]].
+      - left. split; assumption. }
+    split.
+    + intros j x k Hl Hk. apply G in Hl. destruct Hl as [Hl|[-> [-> Hl]]]; [apply (K j x k Hl Hk) | apply (K i o k Hl Hk)].
+    + intros j x Hl. apply G in Hl. destruct Hl as [Hl|[-> [-> Hl]]]; [apply (C j x Hl)|].
+      intros es2 ss2 t2 E2. cbn in E2. injection E2 as <- <- _.
+      destruct (C i o Hl es ss t Ed) as [GN [Keys [KeysR [cn [Ek Ecn]]]]]. pose proof GN as [Gd _].
+      rewrite (rot_n_spec _ _ _ _ _ Gd ER). split; [apply iter_rotT_goodNE; exact GN|]. split; [|split].
+      * intros k. rewrite <- C02.iter_add. apply Keys.
+      * intros key Hk. cbn [o_keys o' with_data] in Hk. destruct (KeysR key Hk) as [k ->].
+        set (n := nstr ss). set (tt := Z.to_nat _).
+        exists (k + (n * tt - tt)). rewrite <- C02.iter_add. f_equal.
+        assert (Hn : n <> 0) by (unfold n, nstr; lia).
+        rewrite (iter_rotT_mod k _ Gd), (iter_rotT_mod (k + (n * tt - tt) + tt) _ Gd). cbn [snd]. fold n.
+        f_equal. assert (tt <= n * tt) by nia. replace (k + (n * tt - tt) + tt) with (k + tt * n) by nia.
+        rewrite Nat.mod_add by exact Hn. reflexivity.
+      * exists cn. split; [exact Ek|]. rewrite canon_orbit_invariant by exact GN. exact Ecn.
+  - match goal with |- context [if ?b then _ else _] => destruct b end; split; assumption.
+Qed.
+
+(* ---- steps and histories (complex requests are required to be well-formed) ---- *)
+Definition cplx_guard (st : state) (o : op) : Prop :=
+  match o with
+  | OComplex _ _ (Some us) (Some ss) _ _ =>
+      forall es, resolve_elems st (Some us) = Some (Some es) -> goodNE (map fst es, ss)
+  | _ => True
+  end.
+
+Lemma rok_finish dst r : ROK (fst r) -> ROK (fst (finish dst r)).
+Proof. intros R. unfold finish. destruct (snd r); cbn [fst]; apply rok_collect; exact R. Qed.
+
+Theorem rok_step ct st o : Inv ct st -> ROK st -> cplx_guard st o -> ROK (fst (step ct st o)).
+Proof.
+  intros I R G. pose proof (proj2 I) as H. destruct o; cbn [step].
+  - destruct (kind_is ct cls KindD); [|exact R]. apply rok_finish. apply rok_dom_call; assumption.
+  - destruct (kind_is ct cls KindC); [|exact R].
+    destruct (resolve_elems st seq) as [es|] eqn:E; [|exact R].
+    apply rok_finish. apply rok_cplx_call; auto; [apply (resolve_elems_live st seq es H E)|].
+    intros es' ss' -> ->. cbn in G. destruct seq as [us|]; [|cbn in E; discriminate]. apply G. exact E.
+  - destruct (kind_is ct cls KindS); [|exact R].
+    destruct (resolve_elems st seq) as [es|] eqn:E; [|exact R].
+    apply rok_finish. apply rok_strand_call; auto. apply (resolve_elems_live st seq es H E).
+  - destruct (kind_is ct cls KindM); [|exact R]. destruct members as [l|].
+    + destruct (resolve_slots st l) as [ids|] eqn:E; [|exact R].
+      apply rok_finish. apply rok_macro_call; auto. intros ms x Ems Hx. injection Ems as <-. eapply resolve_slots_live; eauto.
+    + apply rok_finish. apply rok_macro_call; auto. intros ms x Ems; discriminate.
+  - destruct (kind_is ct cls KindR); [|exact R]. destruct rp as [[r p]|].
+    + destruct (resolve_slots st r) as [r'|] eqn:E1; [|exact R]. destruct (resolve_slots st p) as [p'|] eqn:E2; [|exact R].
+      apply rok_finish. apply rok_reaction_call; auto. intros rs ps x Ers Hx. injection Ers as <- <-. apply in_app_or in Hx.
+      destruct Hx as [Hx|Hx]; [apply (resolve_slots_live st r r' H E1 x Hx) | apply (resolve_slots_live st p p' H E2 x Hx)].
+    + apply rok_finish. apply rok_reaction_call; auto. intros rs ps x Ers; discriminate.
+  - destruct (get_root st src) as [i|]; [|exact R]. destruct (hget (heap st) i) as [ob|]; [|exact R].
+    destruct (o_data ob); try exact R. apply rok_finish. unfold dom_complement.
+    destruct (hget (heap st) i) as [o2|]; [|exact R]. destruct (o_data o2); try exact R. apply rok_dom_call; assumption.
+  - cbn [fst]. apply rok_collect. exact R.
+  - destruct (get_root st slot) as [i|]; [|exact R]. destruct (hget (heap st) i) as [ob|]; [|exact R].
+    destruct (query_obj ct (heap st) ob q); exact R.
+  - destruct (get_root st slot) as [i|]; [|exact R]. destruct (hget (heap st) i) as [ob|]; [|exact R].
+    destruct (o_data ob); try exact R;
+      pose proof (rok_set_turns st i v R) as R'; destruct (set_turns st i v) as [st' [u|k]]; cbn in *; exact R'.
+Qed.
+
+Fixpoint guarded (ct : ctable) (st : state) (ops : list op) : Prop :=
+  match ops with
+  | [] => True
+  | o :: r => cplx_guard st o /\ guarded ct (fst (step ct st o)) r
+  end.
+
+Theorem rok_run ct st ops : Inv ct st -> ROK st -> guarded ct st ops -> ROK (run ct st ops).
+Proof.
+  revert st. induction ops as [|o r IH]; intros st I R G; cbn; [exact R|]. destruct G as [G1 G2].
+  apply IH; [apply inv_step; exact I | apply rok_step; assumption | exact G2].
+Qed.
+
+Theorem rok_reachable ct n ops : guarded ct (init ct n) ops -> ROK (run ct (init ct n) ops).
+Proof. intros G. apply rok_run; [apply inv_init | apply rok_init | exact G]. Qed.
+
+(* ------------------------------------------------------------------ *)
+(* the property theorems                                                *)
+
+(* every rotation of a live complex is registered and bound to it *)
+Theorem all_rotations_registered st i o es ss t k :
+  ROK st -> live_obj (heap st) i o -> o_data o = DCplx es ss t ->
+  goodNE (map fst es, ss) /\
+  klookup (KCplx (Nat.iter k rotT (map fst es, ss))) (cs_canon (cget st (o_cls o))) = Some i.
+Proof.
+  intros [K C] Hl Ed. destruct (C i o Hl es ss t Ed) as [GN [Keys _]]. split; [exact GN|]. apply (K i o _ Hl (Keys k)).
+Qed.
+
+(* what Singleton.__call__ answers when the canonical-form key is bound to i *)
+Definition answer (cs : cstate) (nm : pstr) (i : nat) : cout :=
+  if nonempty nm then
+    match nlookup nm (cs_names cs) with
+    | Some j => if Nat.eqb j i then CRet i false else CErr eSingleton None
+    | None => CErr eSingleton (Some i)
+    end
+  else CRet i false.
+
+Lemma sing_lookup_bound cs nm k i :
+  klookup k (cs_canon cs) = Some i ->
+  match sing_lookup cs nm (Some k) with
+  | LFound o => CRet o false
+  | LRaise e => CErr eSingleton e
+  | LFresh => CErr eBadRequest None
+  end = answer cs nm i.
+Proof.
+  intros H. unfold sing_lookup, answer. rewrite H. destruct (nonempty nm); [|reflexivity].
+  destruct (nlookup nm (cs_names cs)) as [j|]; [|reflexivity]. destruct (Nat.eqb j i) eqn:E; [|reflexivity].
+  apply Nat.eqb_eq in E. subst j. reflexivity.
+Qed.
+
+Theorem request_rotation_same_object ct st c ci i o es0 ss0 t0 k es ss name prefix nm :
+  ROK st -> live_obj (heap st) i o -> o_cls o = c -> o_data o = DCplx es0 ss0 t0 ->
+  nth_error ct c = Some ci ->
+  (map fst es, ss) = Nat.iter k rotT (map fst es0, ss0) ->
+  resolve_name ct st c ci name prefix = Ok nm ->
+  cplx_call ct c st (Some es) (Some ss) name prefix = (st, answer (cget st c) nm i).
+Proof.
+  intros R Hl Ec Ed Eci Er En.
+  destruct (all_rotations_registered st i o es0 ss0 t0 k R Hl Ed) as [GN0 Kb]. rewrite <- Er, Ec in Kb.
+  assert (GN : goodNE (map fst es, ss)) by (rewrite Er; apply iter_rotT_goodNE; exact GN0).
+  unfold cplx_call. rewrite Eci, En.
+  pose proof (aligned_len _ (proj1 GN)) as AL. cbn [fst snd] in AL. rewrite map_length in AL.
+  match goal with |- context [negb ?b] => replace b with true by (symmetry; exact AL) end. cbn [negb].
+  pose proof (n_strands_nstr _ GN) as NS. cbn [fst snd] in NS. unfold n_strands in NS. rewrite NS.
+  unfold nstr at 1. cbn [Nat.eqb].
+  change (S (length (filter isP ss))) with (nstr ss).
+  unfold nstr at 1. rewrite (rot_loop_exit0 _ _ (map fst es, ss) i [] Kb). cbn [min_ckey].
+  pose proof (sing_lookup_bound (cget st c) nm (KCplx (map fst es, ss)) i Kb) as A.
+  destruct (sing_lookup (cget st c) nm (Some (KCplx (map fst es, ss)))) eqn:EL; cbn in A; try (rewrite <- A; reflexivity).
+  exfalso. apply sing_fresh in EL. destruct EL as [_ EL]. congruence.
+Qed.
+
+(* the three outcomes, by the requested (or automatic) name; never a creation *)
+Corollary request_rotation_outcomes ct st c ci i o es0 ss0 t0 k es ss name prefix nm :
+  Inv ct st -> ROK st -> live_obj (heap st) i o -> o_cls o = c -> o_data o = DCplx es0 ss0 t0 ->
+  nth_error ct c = Some ci ->
+  (map fst es, ss) = Nat.iter k rotT (map fst es0, ss0) ->
+  resolve_name ct st c ci name prefix = Ok nm -> nonempty nm = true ->
+  let r := cplx_call ct c st (Some es) (Some ss) name prefix in
+  fst r = st /\
+  (nm = o_name o -> snd r = CRet i false) /\
+  (nlookup nm (cs_names (cget st c)) = None -> snd r = CErr eSingleton (Some i)) /\
+  (forall j, nlookup nm (cs_names (cget st c)) = Some j -> j <> i -> snd r = CErr eSingleton None) /\
+  (forall id, snd r <> CRet id true).
+Proof.
+  intros I R Hl Ec Ed Eci Er En Hne. cbn zeta.
+  rewrite (request_rotation_same_object ct st c ci i o es0 ss0 t0 k es ss name prefix nm R Hl Ec Ed Eci Er En).
+  cbn [fst snd]. unfold answer. rewrite Hne. split; [reflexivity|]. split; [|split; [|split]].
+  - intros ->. destruct (live_registered ct st i o I Hl) as [N _]. rewrite Ec in N. rewrite N, Nat.eqb_refl. reflexivity.
+  - intros ->. reflexivity.
+  - intros j -> D. apply Nat.eqb_neq in D. rewrite D. reflexivity.
+  - intros id. destruct (nlookup nm (cs_names (cget st c))) as [j|]; [destruct (Nat.eqb j i)|]; discriminate.
+Qed.
+
+(* ---- a created complex stores the registry-free canonical form ---- *)
+Lemma create_ret ct st c auto name k extra children d id :
+  snd (create ct st c auto name k extra children d) = CRet id true ->
+  hget (heap (fst (create ct st c auto name k extra children d))) id
+    = Some (mkObj c name k (k :: extra) true children d).
+Proof.
+  unfold create. destruct (nth_error ct c) as [ci|]; [|discriminate].
+  destruct (c_fail ci); unfold alloc; cbn [fst snd]; try discriminate.
+  intros E. injection E as <-. unfold register, cput. cbn [heap]. apply hget_new.
+Qed.
+
+Theorem canon_independent_of_registry ct c st es ss name prefix id :
+  snd (cplx_call ct c st (Some es) (Some ss) name prefix) = CRet id true ->
+  exists cn t rots o,
+    Canon.identifiers_fresh (map fst es) ss = Ok (cn, t, rots) /\
+    hget (heap (fst (cplx_call ct c st (Some es) (Some ss) name prefix))) id = Some o /\
+    o_cls o = c /\ o_key o = KCplx cn /\ o_data o = DCplx es ss t /\ o_live o = true /\
+    (forall y, In (KCplx y) (o_keys o) <-> y = cn \/ In y rots).
+Proof.
+  unfold cplx_call. destruct (nth_error ct c) as [ci|]; [|discriminate].
+  destruct (resolve_name ct st c ci name prefix) as [nm|]; [|discriminate].
+  destruct (negb (Nat.eqb (length es) (length ss))) eqn:EL; [discriminate|]. apply negb_false_iff, Nat.eqb_eq in EL.
+  destruct (Nat.eqb (length (make_strand_table_list sPlus (map fst es))) 0) eqn:EN; [discriminate|]. apply Nat.eqb_neq in EN.
+  destruct (rot_loop _ 0 (cs_canon (cget st c)) (map fst es) ss []) as [[ex cdict]|] eqn:ER; [|discriminate].
+  pose proof ER as ER'. apply rot_loop_fresh in ER'; [|intros k []]. destruct ER' as [F1 F2].
+  destruct ex as [[k0 e0]|].
+  - (* early exit: never a creation *)
+    destruct (sing_lookup (cget st c) nm (Some (KCplx k0))) eqn:E; cbn [snd]; try discriminate.
+    exfalso. apply sing_fresh in E. apply (F2 k0 e0 eq_refl). apply E.
+  - destruct (min_ckey cdict) as [cn|] eqn:EM; [|discriminate].
+    destruct (cdict_get cn cdict) as [e|] eqn:EG; [|discriminate].
+    destruct (sing_lookup (cget st c) nm (Some (KCplx cn))) eqn:E; cbn [snd]; try discriminate.
+    intros H. pose proof (create_ret _ _ _ _ _ _ _ _ _ _ H) as Hg.
+    assert (HL : length (map fst es) = length ss) by (rewrite map_length; exact EL).
+    destruct (loop_is_identifiers_fresh _ _ _ _ _ _ HL EN ER EM EG) as [rots [IF Keys]].
+    eexists cn, _, rots, _. split; [exact IF|]. split; [exact Hg|]. cbn [o_cls o_key o_data o_live o_keys].
+    repeat split; try reflexivity.
+    + intros [Hy|Hy]; [left; congruence|]. right. apply Keys. apply in_map_iff in Hy. destruct Hy as [[kk vv] [Ek Hin]].
+      injection Ek as <-. apply in_map_iff. exists (kk, vv). auto.
+    + intros [->|Hy]; [left; reflexivity|]. right. apply Keys in Hy. apply in_map_iff in Hy. destruct Hy as [[kk vv] [Ek Hin]].
+      cbn in Ek. subst kk. apply in_map_iff. exists (y, vv). auto.
+Qed.
+
+Corollary created_canon_is_canon_T ct c st es ss name prefix id :
+  snd (cplx_call ct c st (Some es) (Some ss) name prefix) = CRet id true ->
+  exists o, hget (heap (fst (cplx_call ct c st (Some es) (Some ss) name prefix))) id = Some o /\
+            canon_T (map fst es, ss) = Some (match o_key o with KCplx cn => cn | _ => ([], []) end).
+Proof.
+  intros H. destruct (canon_independent_of_registry _ _ _ _ _ _ _ _ H) as (cn & t & rots & o & IF & Hg & _ & Ek & _).
+  exists o. split; [exact Hg|]. unfold canon_T. cbn [fst snd]. rewrite IF, Ek. reflexivity.
 Qed.
